@@ -7,6 +7,7 @@ Definition obs20_eqb (a b : obs20) : bool :=
   match a, b with
   | OR k1 f1 c1, OR k2 f2 c2 => Bool.eqb k1 k2 && oeqb files_eqb f1 f2 && Bool.eqb c1 c2
   | OB e1, OB e2 => Bool.eqb e1 e2
+  | OT e1, OT e2 => Bool.eqb e1 e2
   | OP, OP => true
   | _, _ => false
   end.
@@ -26,7 +27,7 @@ Definition verdict (c : case) : Z * Z :=
   (verdict_code (d =? -1) (C20_check (c_hist c)), d).
 
 (* compact constructors for generated files *)
-Definition Fs (e : option (list Z)) (d : option (list (Z * Z))) (s : option (list (list Z))) (fmt : bool) : option files3 :=
+Definition Fs (e : option (list Z)) (d : option (list (Z * Z))) (s : option (list sline)) (fmt : bool) : option files3 :=
   Some {| x_ext := e; x_drop := d; x_state := s; x_fmt := fmt |}.
 Definition NoF : option files3 := None.
 Definition Wq (s : list Z) (path : Z) (b22 b3 boff : bool) (ok : bool) (f : option files3) (closed : bool) : op20 * obs20 :=
@@ -34,6 +35,7 @@ Definition Wq (s : list Z) (path : Z) (b22 b3 boff : bool) (ok : bool) (f : opti
 Definition Lq (l : list Z) (ok : bool) (f : option files3) (closed : bool) : op20 * obs20 := (Req (LABEL l), OR ok f closed).
 Definition Pq (ch n : Z) : op20 * obs20 := (Req (PUB ch n), OP).
 Definition Bq (ext : list Z) (drops first : Z) (err : bool) : op20 * obs20 := (BLK ext drops first, OB err).
+Definition Tq (off : Z) (l : list Z) (ok : bool) : op20 * obs20 := (TLABEL off l, OT ok).
 Definition mk (proj : list bool) (used : list (Z * Z)) (mapn base : Z) (h : list (op20 * obs20)) : case :=
   {| c_cfg := {| c_proj := proj; c_used := used; c_map := mapn; c_base := base |}; c_hist := h |}.
 Definition crashed : case := mk [] [] (-1) 0 [(BLK [] 0 0, OX)].
